@@ -149,6 +149,9 @@ def is_numeric(expr):
         return False
 
 def DM2numpy(dm, expr_shape, tdim=None):
+    if hasattr(dm, "toarray"):
+        # Opti returns a scipy sparse matrix when the value has structural zeros
+        dm = dm.toarray()
     if tdim is None:
         return np.array(dm).squeeze()
     expr_prod = expr_shape[0]*expr_shape[1]
